@@ -327,8 +327,54 @@ def pick_bool(rng):
     return rng.choice(BOOL_T + BOOL_F)
 
 
-def gen_program_opts(rng, name, scratch, kind='program', rich=None):
-    """[(key, value)] for one [program:x]-like section, plus the facts the monitors need"""
+def thread_env(rng, opts, inherited, n):
+    """the 'extend an inherited variable' idiom: environment= defines X through %(ENV_X)s of the same X (inherited from
+    os.environ or from the [supervisord] environment), possibly per process, and command / directory / log file names /
+    process_name use the program's own value through %(ENV_X)s.  `inherited`: {variable: value is free of ' :/'}.
+    Rewrites `opts` in place; returns the environment string."""
+    d = dict(opts)
+    names = sorted(inherited)
+    x = rng.choice(names)
+    plain = inherited[x]
+    parts = []
+    form = rng.choice(['prefix', 'prefix', 'suffix-num', 'both'])
+    pre = rng.choice(['w-', 'x.', 'v_']) if plain else rng.choice(['/opt/app/bin:', 'pre:', '/o p/'])
+    if form == 'prefix':
+        parts.append('%s="%s%%(ENV_%s)s"' % (x, pre, x))
+    elif form == 'suffix-num':
+        parts.append('%s="%%(ENV_%s)s.%%(process_num)d"' % (x, x))
+    else:
+        parts.append('%s="%s%%(ENV_%s)s-%%(process_num)02d"' % (x, pre, x))
+    if rng.random() < 0.5:                       # a second variable built from the inherited value of the first
+        parts.append('%s_SUB="%%(ENV_%s)s/sub"' % (x, x))
+    if rng.random() < 0.4:
+        y = rng.choice(names)
+        # (a variable that names or log file names of the section may already use stays free of ' :/')
+        if y != x and (plain or not inherited[y]):
+            parts.append('%s="%%(ENV_%s)s+%%(ENV_%s)s"' % (y, y, x))
+    if rng.random() < 0.4:
+        parts.append('SLOT="%(process_num)d"')
+    rng.shuffle(parts)
+    env = ','.join(parts)
+    use = '%%(ENV_%s)s' % x
+    uses = rng.sample(['command', 'directory', 'stdout_logfile', 'stderr_logfile', 'process_name'], rng.randrange(1, 4))
+    for u in uses:
+        if u == 'command':
+            d['command'] = d['command'] + ' --x=' + use
+        elif u == 'directory':
+            d['directory'] = '/srv/' + use + rng.choice(['', '/%(process_num)d'])
+        elif u in ('stdout_logfile', 'stderr_logfile') and plain:
+            d[u] = '/tmp/' + use + '_%(process_num)d.' + u[:6]
+        elif u == 'process_name' and plain:
+            d['process_name'] = '%(program_name)s_' + use + '_%(process_num)d'
+    d['environment'] = env
+    opts[:] = [(k, d[k]) for k, _ in opts if k in d] + [(k, v) for k, v in d.items() if k not in dict(opts)]
+    return env
+
+
+def gen_program_opts(rng, name, scratch, kind='program', rich=None, inherited=None):
+    """[(key, value)] for one [program:x]-like section, plus the facts the monitors need.
+    inherited: when given ({variable: plain}), some sections additionally get the thread_env dimension."""
     rich = rng.random() < 0.7 if rich is None else rich
     facts = {'name': name, 'kind': kind}
     n = 1
@@ -413,6 +459,11 @@ def gen_program_opts(rng, name, scratch, kind='program', rich=None):
             opts.append(('killasgroup', pick_bool(rng)))
         elif r < 0.45:
             opts.append(('stopasgroup', rng.choice(BOOL_F))); opts.append(('killasgroup', pick_bool(rng)))
+    if inherited and rng.random() < 0.5:
+        env = thread_env(rng, opts, inherited, n)
+        d = dict(opts)
+        facts.update(environment=env, command=d['command'], process_name=d.get('process_name', facts['process_name']))
+        facts['threaded'] = True
     rng.shuffle(opts)
     facts['opts'] = dict(opts)
     return opts, facts
@@ -421,8 +472,22 @@ def gen_program_opts(rng, name, scratch, kind='program', rich=None):
 NAMES = ['web', 'worker', 'db', 'cache', 'api', 'cron', 'mail', 'a', 'b', 'zz', 'x1', 'svc_2', 'café', 'UP', 'n-1', 'q.r']
 
 
-def gen_config(rng, scratch, small=False):
-    """-> dict(sections=[(name, [(k, v)])], facts=..., include=[indices of sections placed in an included file])"""
+# [supervisord] environment strings of the per-process dimension: (text, {variable: value free of ' :/'})
+SUPENV_INHERIT = [
+    ('GLOBAL="sup"', {'GLOBAL': True}),
+    ('GLOBAL=sup,A="fromsup"', {'GLOBAL': True, 'A': True}),
+    ('LIBDIR="/srv/lib",TAG="t1"', {'LIBDIR': False, 'TAG': True}),
+    ('PATH="/sbin:/bin"', {'PATH': False}),
+    ('A=%(ENV_VERIF_A)s', {'A': True}),
+    ('VERIF_B="sup-%(ENV_VERIF_B)s",LIBDIR="/l"', {'LIBDIR': False}),      # [supervisord] itself extends an os.environ variable
+]
+OSENV_INHERIT = {'VERIF_A': True, 'VERIF_B': True, 'VERIF_N': True}
+
+
+def gen_config(rng, scratch, small=False, perproc=False):
+    """-> dict(sections=[(name, [(k, v)])], facts=..., include=[indices of sections placed in an included file])
+    perproc: add the dimension 'numprocs > 1 x environment= referring to its own inherited ENV_ variable (from os.environ
+    and from the [supervisord] environment) x use of the program's value in command/directory/log files/process_name'"""
     names = rng.sample(NAMES, len(NAMES))
     nprog = rng.choice([1, 1, 2, 2, 3, 4]) if small else rng.choice([1, 2, 2, 3, 3, 4, 5, 6])
     sections = []
@@ -432,6 +497,13 @@ def gen_config(rng, scratch, small=False):
         supenv = rng.choice(['GLOBAL="sup"', 'GLOBAL=sup,A="fromsup"', 'S1=x,S2="%(here)s"',
                              'A=%(ENV_VERIF_A)s', 'PATH="/sbin"', 'PCT="100%%",URI="/a%%20b"'])
         sup.append(('environment', supenv))
+    inherited = None
+    if perproc:
+        inherited = dict(OSENV_INHERIT)
+        if rng.random() < 0.6:
+            supenv, more = rng.choice(SUPENV_INHERIT)
+            sup[:] = [('environment', supenv)]
+            inherited.update(more)
     for key, vals in (('minfds', ['1024', '2048']), ('minprocs', ['200', '50']), ('umask', ['022', '077']),
                       ('logfile_maxbytes', ['50MB', '1KB']), ('logfile_backups', ['10', '0']), ('identifier', ['supervisor', 'sv2']),
                       ('nodaemon', ['true', 'false']), ('silent', ['false', 'true']), ('nocleanup', ['true', 'false']),
@@ -443,7 +515,7 @@ def gen_config(rng, scratch, small=False):
     progs = []
     for _ in range(nprog):
         nm = names.pop()
-        opts, f = gen_program_opts(rng, nm, scratch)
+        opts, f = gen_program_opts(rng, nm, scratch, inherited=inherited)
         sections.append(('program:' + nm, opts))
         facts['programs'].append(f)
         progs.append(nm)
@@ -464,7 +536,7 @@ def gen_config(rng, scratch, small=False):
     # event listeners
     while rng.random() < 0.35:
         nm = names.pop()
-        opts, f = gen_program_opts(rng, nm, scratch, kind='eventlistener', rich=rng.random() < 0.3)
+        opts, f = gen_program_opts(rng, nm, scratch, kind='eventlistener', rich=rng.random() < 0.3, inherited=inherited)
         evs = rng.sample(event_names(), rng.randrange(1, 4))
         if rng.random() < 0.3:
             evs.append(evs[0])
@@ -483,7 +555,7 @@ def gen_config(rng, scratch, small=False):
     # fastcgi
     while rng.random() < 0.2:
         nm = names.pop()
-        opts, f = gen_program_opts(rng, nm, scratch, kind='fcgi', rich=rng.random() < 0.3)
+        opts, f = gen_program_opts(rng, nm, scratch, kind='fcgi', rich=rng.random() < 0.3, inherited=inherited)
         sock = rng.choice(['tcp://localhost:9%03d' % rng.randrange(1000), 'tcp://Host.Example:80', 'unix:///tmp/%(program_name)s.sock',
                            'unix://' + scratch + '/f.sock'])
         opts.append(('socket', sock))
@@ -608,6 +680,17 @@ def corruptions(rng, cfg, per_class=1, everything=False):
         res.append(('stopasgroup-without-killasgroup', True,
                     _with(secs, si, _set(_set(opts, 'stopasgroup', rng.choice(BOOL_T)), 'killasgroup', rng.choice(BOOL_F)))))
         res.append(('missing-command', True, _with(secs, si, [(k, v) for k, v in opts if k != 'command'])))
+        # an ENV_ key that only the environment of an EARLIER process of the section defines (F43): every process is
+        # expanded on its own, so the later processes cannot use it
+        nn, st = rng.choice([2, 3, 5]), rng.choice([0, 1, 7, -1])
+        o2 = opts
+        for k, v in (('numprocs', str(nn)), ('numprocs_start', str(st)), ('process_name', 'k%(process_num)d'),
+                     ('environment', 'KEY%(process_num)d="v%(process_num)d"'),
+                     (rng.choice(['command', 'directory', 'stdout_logfile']), '/tmp/x%%(ENV_KEY%d)s' % st)):
+            o2 = _set(o2, k, v)
+        if 'command' not in dict(o2):
+            o2 = _set(o2, 'command', '/bin/cat')
+        res.append(('env-key-of-earlier-process', True, _with(secs, si, o2)))
         # forbidden name characters, directly and through an expansion (F17)
         d = dict(opts)
         many = int(d.get('numprocs', '1')) > 1
